@@ -114,6 +114,15 @@ def _default_pure_calls():
         return None
 
     t["<core::cmp::Ordering>::reverse"] = ord_reverse
+
+    def smart_deref(w, env, args):
+        v = args[0]
+        if isinstance(v, tuple) and v[0] == "ref":
+            return ("ref", v[1] + ".^")
+        return None
+
+    for ptr in ("alloc::rc::Rc", "alloc::boxed::Box", "rsjsonnet_lang::gc::GcView", "alloc::sync::Arc"):
+        t["<%s as core::ops::deref::Deref>::deref" % ptr] = smart_deref
     return t
 
 
@@ -124,7 +133,7 @@ class Walker:
     def __init__(self, F, body, *, on_stmt=None, on_term=None, on_edge=None, pure_calls=None,
                  after_stmt=None, call_result=None,
                  max_states=400000, arith=False, ordered_marks=False, want_ret=False,
-                 inline_eq_derive=True, max_marks=64, ret_prefixes=("0",)):
+                 inline_eq_derive=True, max_marks=64, ret_prefixes=("0",), dedupe_marks=False):
         self.F = F
         self.body = body
         self.on_stmt = on_stmt
@@ -142,6 +151,7 @@ class Walker:
         self.inline_eq_derive = inline_eq_derive
         self.max_marks = max_marks
         self.ret_prefixes = tuple(ret_prefixes)
+        self.dedupe_marks = dedupe_marks
         self.states_explored = 0
         self.edges_taken = set()
 
@@ -342,7 +352,13 @@ class Walker:
             a = self.val(env, rv["a"])
             b = self.val(env, rv["b"])
             env.kill(dst)
-            r = self.eval_binop(rv["op"], a, b)
+            op = rv["op"]
+            if self.arith and op in ("AddWithOverflow", "SubWithOverflow") and isinstance(a, int) and isinstance(b, int):
+                r = a + b if op.startswith("Add") else a - b
+                env[dst + ".0"] = r
+                env[dst + ".1"] = 1 if r < 0 else 0
+                return
+            r = self.eval_binop(op, a, b)
             if r is not None:
                 env[dst] = r
             return
@@ -494,6 +510,8 @@ class Walker:
 
     def _add_mark(self, marks, m):
         if self.ordered:
+            if self.dedupe_marks and m in marks:
+                return
             if len(marks) < self.max_marks:
                 marks.append(m)
         else:
